@@ -22,6 +22,9 @@ def check(repo: Repo, rep, tier):
     from .C12 import utf8
 
     utf8(repo, rep)
+    from .C03 import io_encoding
+
+    io_encoding(repo, rep)
 
 
 def _calls_of(f, cfg, cg, key):
